@@ -762,7 +762,8 @@ impl Exec {
         let mut acc_streams: Vec<Scoped<TcpStream>> = vec![];
         for l in self.listeners() {
             let lh = self.model.socks[&l].host;
-            while let Some((st, peer)) = self.try_accept(l) {
+            for _ in 0..probes.len() + 2 {
+                let Some((st, peer)) = self.try_accept(l) else { break };
                 let st = Scoped::new(self.world.id(lh), st);
                 let ph = if peer.ip().is_loopback() { lh } else { self.model.owner(peer.ip()).unwrap_or(usize::MAX) };
                 let Some(&i) = locals.get(&(ph, peer)) else {
